@@ -159,6 +159,7 @@ TJ(t) == IF t = NIL THEN <<"Z">>
 HdrJ(hd) == [root |-> TJ(hd.root), leaves |-> hd.leaves]
 Log(r) == /\ nops' = IF MaxOps = 0 THEN 0 ELSE nops + 1
           /\ hist' = IF HistOn THEN Append(hist, r @@ [len |-> acc'.len, hdr |-> HdrJ(Header(acc')), runs |-> [j \in 1..Len(items') |-> <<items'[j].v, items'[j].n>>],
+                                                       plen |-> pdata'.len, phdr |-> HdrJ(Header(pdata')),   \* what a second accumulator opened on the same buckets shows
                                                        digits |-> [i \in 1..Len(acc'.roots) |-> Len(acc'.roots[i])]])
                      ELSE hist
 
@@ -250,6 +251,9 @@ ProofsOK == \A key \in 0..(acc.len - 1) :
   /\ c.badhash = "verify" /\ c.otherkey = "verify" /\ c.extra = "verify"
   /\ \A j \in 1..c.n : c.alter[j] = "verify" /\ c.drop[j] # "ok"
   /\ c.partial = "ok"
+\* the persisted record always describes a real accumulation; it lags behind the object only after SetLen(0),
+\* which resets the object without rewriting the record (a re-opened accumulator then continues from the old record)
+PersistedConsistent == pdata = Accumulate(pitems) /\ ((pdata # acc) => (acc.len = 0 /\ pdata.len > 0))
 \* all hashes can be synchronised in order with partial proofs only
 SequentialSyncOK == acc.len > 0 => SeqSync(FinalizeStore(acc, store), Header(acc), items, 0, EmptyStore) = -1
 \* full nodes are in the bucket as soon as they are complete; rewinding needs nothing else than Finalize
